@@ -118,9 +118,10 @@ def gen_edits(rng, scn, n=(1, 3)):
     juncs = [x for x in scn['nodes'] if x['type'] == 'J' and x.get('demands')]
     heads = [l for l in scn['links'] if l['type'] == 'pump' and l.get('kind') == 'HEAD']
     valves = [l for l in scn['links'] if l['type'] == 'valve']
+    vtanks = [x for x in scn['nodes'] if x['type'] == 'T' and x.get('vol_curve')]
     for _ in range(rng.irange(*n)):
         k = rng.wpick([('pipe', 3), ('pattern', 3 if scn['patterns'] else 0), ('demand', 3 if juncs else 0), ('pump_curve', 4 if heads else 0),
-                       ('valve_setting', 2 if valves else 0), ('initial_status', 2), ('same_simulator', 2), ('multiplier', 1), ('elevation', 1), ('reservoir_head', 1), ('tank_init', 1)])
+                       ('valve_setting', 2 if valves else 0), ('vol_curve', 4 if vtanks else 0), ('initial_status', 2), ('same_simulator', 2), ('multiplier', 1), ('elevation', 1), ('reservoir_head', 1), ('tank_init', 1)])
         if k == 'pipe' and pipes:
             l = rng.pick(pipes)
             attr = rng.pick(['diam', 'len', 'rough', 'minor'])
@@ -140,6 +141,17 @@ def gen_edits(rng, scn, n=(1, 3)):
             l = rng.pick(heads)
             f = rng.pick([0.8, 0.9, 1.2, 1.4])
             edits.append({'kind': 'curve_points', 'curve': l['curve'], 'points': [[p_[0], round(p_[1] * f, 3)] for p_ in scn['curves'][l['curve']]['points']]})
+        elif k == 'vol_curve':
+            # the points of a tank's volume curve are replaced (same levels, other volumes: the tank got a different shape)
+            tk = rng.pick(vtanks)
+            f = rng.pick([0.6, 0.8, 1.3, 1.7])
+            g = rng.pick([1.0, 1.0, 0.85, 1.2])
+            pts = scn['curves'][tk['vol_curve']]['points']
+            n_ = max(1, len(pts) - 1)
+            new = [[p_[0], round(p_[1] * f * (g ** (i_ / n_)), 3)] for i_, p_ in enumerate(pts)]
+            if any(b_[1] <= a_[1] for a_, b_ in zip(new, new[1:])):
+                new = [[p_[0], round(p_[1] * f, 3)] for p_ in pts]
+            edits.append({'kind': 'curve_points', 'curve': tk['vol_curve'], 'points': new})
         elif k == 'valve_setting':
             l = rng.pick(valves)
             edits.append({'kind': 'valve_setting', 'id': l['id'], 'value': round((l['setting'] if l['setting'] > 0 else 5.0) * rng.pick([0.6, 1.3]), 6)})
